@@ -231,12 +231,18 @@ def strip_types(t):
     return t
 
 
-def rule_chebyshev_bounds(ck, units):
+def rule_chebyshev_bounds(ck, units, which=('cheb', 'sib')):
     import json
     import c02
-    ck.rule('cheb-scale-consistent', 'chebyshev: the spectral radius is estimated for the operator the iteration runs on - spectral_radius<true> exactly under prm.scale, <false> otherwise', 1)
-    ck.rule('radius-siblings', 'the diagonal scaling statements of the serial and the distributed spectral-radius kernels (Gershgorin and power branch) are the same code', 1)
+    if 'cheb' in which:
+        ck.rule('cheb-scale-consistent', 'chebyshev: the spectral radius is estimated for the operator the iteration runs on - spectral_radius<true> exactly under prm.scale, <false> otherwise', 1)
+    if 'sib' in which:
+        ck.rule('radius-siblings', 'the diagonal scaling statements of the serial and the distributed spectral-radius kernels (Gershgorin and power branch) are the same code', 1)
     done = set()
+    if 'cheb' not in which:
+        done.add('cheb')
+    if 'sib' not in which:
+        done.add('sib')
     for u in units.values():
         for f in u.funcs:
             if f.cls == 'amgcl::relaxation::chebyshev' and f.j.get('ctor') and 'cheb' not in done:
